@@ -50,6 +50,14 @@ CLAIMED = {
         "source by the mini translator; correspondence on boundaries + dense tick prefix",
         "float division in TimeTicks.pythonize is modelled as exact (argued in DESIGN.md, sampled); x690 Integer codec modelled",
     ),
+    "C13": (
+        "proof (partial): for every outcome sequence, retries and timeout: <= retries identical transmissions, first reply inside "
+        "its window returned unmodified at its arrival time after k full timeouts, Timeout iff retries unanswered attempts in a row "
+        "and then after exactly retries x timeout, opened = closed endpoints; tied by running the real send_udp on a virtual-time "
+        "loop with a recording endpoint factory, exhaustively over all outcome sequences up to the retry budget, plus loopback "
+        "sockets with /proc/self/fd counts",
+        "partial: kernel socket behaviour, ICMP timing, garbage collection and equal-deadline timer order are outside the model",
+    ),
     "C15": (
         "proof: for every raw result every wrapper method returns built-in types only (PyVal universe with an explicit leak "
         "constructor, dictionary keys included) and equals the element-wise pythonisation (tables: same items, index key moved "
